@@ -474,6 +474,30 @@ func runC20(o *out, thorough bool, r *rng, _ []string) map[string]interface{} {
 		}
 		o.count("rebuild-in-place")
 	}
+	// warm for a large message; then a small one is decoded and walked with ForEach; then the large one again:
+	// the attribute list has kept its capacity
+	for i := 0; i < 40; i++ {
+		large, small := r.validMessage(12+r.intn(6), 16), r.validMessage(1+r.intn(3), 8)
+		m := new(stun.Message)
+		if stun.Decode(large, m) != nil || stun.Decode(large, m) != nil || len(m.Attributes) < 8 {
+			continue
+		}
+		every := true
+		for rep := 0; rep < 3; rep++ {
+			if stun.Decode(small, m) != nil || len(m.Attributes) == 0 {
+				every = false
+				break
+			}
+			_ = m.ForEach(m.Attributes[0].Type, func(*stun.Message) error { return nil })
+			if mallocs(func() { _ = stun.Decode(large, m) }) == 0 {
+				every = false
+			}
+		}
+		if every {
+			o.failFor("C20", "warm-op-allocates", fmt.Sprintf("x a Message warm for %s decodes %s, ForEach is called, and every Decode of the large message after that allocates", fHex(large), fHex(small)))
+		}
+		o.count("large-small-foreach-large")
+	}
 	// a Decode that FAILS among the attributes, then a well-formed one of the same shape as before it: the Message
 	// is as warm as it was
 	for i := 0; i < 60; i++ {
